@@ -56,6 +56,7 @@ type v04Script struct {
 	avail    []int // cumulative bytes available at each driver read after start-up (original stream offsets)
 	mixAt    int   // the mix is changed before the block with this index is requested (-1 = never)
 	mix      float64
+	devnum   int // number of the (single) active card; card 0 then need not exist at all
 }
 
 // v04Card implements lancero.Lanceroer over a byte stream.
@@ -193,8 +194,8 @@ func v04RunScript(x *vexp.X, s *v04Script) vexp.Result {
 	ls := &LanceroSource{}
 	ls.name = "Lancero"
 	ls.nsamp = 1
-	dev := &LanceroDevice{devnum: 0, card: card, ncols: g.ncols, nrows: g.nrows, frameSize: frameSize, clockMHz: 125, lsync: 1250 / g.nrows}
-	ls.devices = map[int]*LanceroDevice{0: dev}
+	dev := &LanceroDevice{devnum: s.devnum, card: card, ncols: g.ncols, nrows: g.nrows, frameSize: frameSize, clockMHz: 125, lsync: 1250 / g.nrows}
+	ls.devices = map[int]*LanceroDevice{s.devnum: dev}
 	ls.active = []*LanceroDevice{dev}
 	ls.ncards = 1
 	ls.firstRowChanNum = 1
@@ -502,7 +503,7 @@ func TestVerifC04(t *testing.T) {
 	r := vexp.NewRunner("C04")
 	r.CrashTrace = true
 	defer r.Finish()
-	r.SetBound(fmt.Sprintf("geometries (columns x rows) in {1,2,3}x{2,3}, %d frames (gap family: 32) of position-tagged words, stream starting 0-2 words into a frame; chunkings: every way to make 1-3 driver reads end at offsets from a grid of byte positions (frame-aligned, word-aligned and mid-word, shorter and longer than 3 frames); external-trigger flag rising at every single (frame,row) and at pairs; mix fraction in {0.5,-1.5,400} switched on before block 0, 1 or 2; one gap of lost words of 8 lengths (1 word .. 3 frames + a row, never a whole number of frames) starting at every word offset of a three-frame window around a read boundary, for 6 chunkings (frame-aligned, not aligned, a too-short read after the loss, one long read)", v04Frames))
+	r.SetBound(fmt.Sprintf("geometries (columns x rows) in {1,2,3}x{2,3}, %d frames (gap family: 32) of position-tagged words, stream starting 0-2 words into a frame; the active card numbered 0 or 1; chunkings: every way to make 1-3 driver reads end at offsets from a grid of byte positions (frame-aligned, word-aligned and mid-word, shorter and longer than 3 frames); external-trigger flag rising at every single (frame,row) and at pairs; mix fraction in {0.5,-1.5,400} switched on before block 0, 1 or 2; one gap of lost words of 8 lengths (1 word .. 3 frames + a row, never a whole number of frames) starting at every word offset of a three-frame window around a read boundary, for 6 chunkings (frame-aligned, not aligned, a too-short read after the loss, one long read)", v04Frames))
 	var geoms []v04Geom
 	for c := 1; c <= 3; c++ {
 		for rr := 2; rr <= 3; rr++ { // one row: every word carries the frame bit, frames cannot be told apart
@@ -567,6 +568,7 @@ func TestVerifC04(t *testing.T) {
 				s.avail = append(s.avail, end)
 				// one flag pulse of one row in the middle of the stream (the ext family moves it everywhere)
 				s.ext[6][g.nrows-1] = true
+				s.devnum = x.Choose(2) // the active card is card 0, or card 1 on a system without a card 0
 				return v04RunScript(x, s)
 			})
 			// family 2: external-trigger patterns (pairs, long pulses) with a fixed chunking
